@@ -63,6 +63,12 @@ func ParseASN1PublicKey(data []byte) (*PublicKey, error) {
 		return nil, errInvalidAsn1SPKI
 	}
 
+	if subjectPublicKey.BitLength%8 != 0 {
+		// DER: the encoded point is a whole number of octets, so the
+		// BIT STRING MUST NOT declare any unused bits.
+		return nil, errInvalidAsn1SPKI
+	}
+
 	if !oidAlgorithm.Equal(oidEcPublicKey) {
 		return nil, errInvalidAsn1Algo
 	}
